@@ -126,7 +126,7 @@ fn rec_modules(world: &World) -> Vec<usize> {
 }
 
 /// every probe of one (world, site), in a fixed order
-pub fn probes(world: &World, site: usize) -> Vec<TyProbe> {
+pub fn probes(world: &World, _site: usize) -> Vec<TyProbe> {
     let mut out = vec![];
     let mut paths: Vec<Path> = vec![vec!["R"]];
     for pf in PFORMS {
@@ -494,4 +494,37 @@ pub fn describe(env: &Env, site: usize, sub: u64) -> Value {
         Some(p) => case_json(env, site, sub as usize, p, "memory or disk", None),
         None => json!({"what": "setup"}),
     }
+}
+
+/// hand-derived expectations for the small resolver above (preflight)
+pub fn selfcheck() -> Result<(), String> {
+    // pkg(0) R, pkg.a(1) R, pkg.a.c(2) no R
+    let w = World { tree: Tree::from_paths(&["a", "a.c"]), has: [0, 0, 0b011] };
+    let g = |tparam: Seg, path: &[Seg], variant| TyProbe::Generic { is_enum: false, tparam, path: path.to_vec(), variant };
+    let s = |in_return, pname: Seg, path: &[Seg], variant| TyProbe::Sig { in_return, pname, path: path.to_vec(), variant };
+    let rows: Vec<(&str, usize, TyProbe, Expect)> = vec![
+        ("the parameter itself", 0, g("T", &["T"], Variant::Param), Expect::Tag(TAG_TPARAM)),
+        ("a path continuing after a type parameter", 0, g("T", &["T", "R"], Variant::Param), Expect::Error),
+        ("parameter named like the child module: a.R is not pkg.a.R", 0, g("a", &["a", "R"], Variant::Rec(1)), Expect::Error),
+        ("... nor the parameter", 0, g("a", &["a", "R"], Variant::Param), Expect::Error),
+        ("absolute path is not affected by a parameter a", 0, g("a", &["pkg", "a", "R"], Variant::Rec(1)), Expect::Tag(31)),
+        ("other parameter name: a.R is pkg.a.R", 0, g("T", &["a", "R"], Variant::Rec(1)), Expect::Tag(31)),
+        ("parameter named R hides the record", 0, g("R", &["R"], Variant::Rec(0)), Expect::Error),
+        ("parameter named R used as a number", 0, g("R", &["R"], Variant::Param), Expect::Tag(TAG_TPARAM)),
+        ("own record", 1, g("T", &["R"], Variant::Rec(1)), Expect::Tag(31)),
+        ("own record, marker of another copy", 1, g("T", &["R"], Variant::Rec(0)), Expect::Error),
+        ("a module does not see its parent's record", 2, g("T", &["R"], Variant::Rec(1)), Expect::Error),
+        ("super", 2, g("T", &["super", "R"], Variant::Rec(1)), Expect::Tag(31)),
+        ("parameter type after a parameter named like the module", 0, s(false, "a", &["a", "R"], 1), Expect::Tag(31)),
+        ("return type after a parameter named like the module", 0, s(true, "a", &["a", "R"], 1), Expect::Tag(31)),
+        ("return type after a parameter named like the record", 0, s(true, "R", &["R"], 0), Expect::Tag(30)),
+        ("return type that does not exist", 2, s(true, "n", &["R"], 0), Expect::Error),
+    ];
+    for (what, site, p, want) in rows {
+        let got = expect(&w, site, &p);
+        if got != want {
+            return Err(format!("type-position resolver disagrees with the hand-derived table: {what}: want {want:?}, got {got:?}"));
+        }
+    }
+    Ok(())
 }
